@@ -3,6 +3,7 @@ import json
 import os
 import re
 from ..query import deep_roots, ultimate_roots, describe_origin, option_arms, assigns_ret_variant, field_path, TRANSPARENT, calls_in
+from ..facts import AnchorError
 
 HERE = os.path.dirname(os.path.dirname(os.path.dirname(os.path.abspath(__file__))))
 TABLE = os.path.join(HERE, "tables", "panic_sites.json")
@@ -141,6 +142,10 @@ def auto_discharge(prog, s):
     if k.startswith("assert:"):
         if all(o[0] == "k" for o in s["ops"]):
             return "both operands constant"
+    if k == "assert:overflow_Sub" and len(s["ops"]) == 2:
+        g = _dominating_le(f, s["bb"], s["ops"][1], s["ops"][0])
+        if g:
+            return "x - y with y <= x established by the dominating comparison in bb%d" % g
     if k.startswith("call:core::option::Option::<T>::") or k.startswith("call:core::result::Result::<T, E>::"):
         c = s["call"]
         # directly on an aggregate Some/Ok or on a workspace call that only returns Some/Ok
@@ -152,6 +157,62 @@ def auto_discharge(prog, s):
                     g = prog.fns[t]
                     if only_returns(g, ("Some", "Ok")):
                         return "callee %s returns Some/Ok on every path" % g.id
+    return None
+
+
+def _ident(f, op):
+    """identity of an operand as a single origin (call result / parameter), or None when ambiguous"""
+    if op[0] == "k":
+        return ("k", op[1].get("v"))
+    os_ = f.trace_operand(op)
+    ids = set()
+    for o in os_:
+        if o.kind == "call":
+            ids.add(("call", o.ref.bb, tuple(o.proj)))
+        elif o.kind == "param":
+            ids.add(("param", o.ref, tuple(o.proj)))
+        else:
+            return None
+    return next(iter(ids)) if len(ids) == 1 else None
+
+
+def _dominating_le(f, site_bb, small, big):
+    """block of a comparison that establishes small <= big on every path to site_bb (the site is dominated by the arm of a
+    switch on `small > big` / `big < small` (false arm) or `small <= big` / `big >= small` (true arm), that arm's target having
+    the switch as its only predecessor)"""
+    a, b = _ident(f, small), _ident(f, big)
+    if a is None or b is None:
+        return None
+    for bi in sorted(f.live_blocks):
+        si = f.switch_info(bi)
+        if not si or "true" not in si["arms"] or si["op"][0] == "k":
+            continue
+        d = si.get("bool_def")
+        if not d or d[0] != "bin" or d[1] not in ("Gt", "Lt", "Ge", "Le"):
+            continue
+        l, r = _ident(f, d[2]), _ident(f, d[3])
+        arm = None
+        if d[1] == "Gt" and (l, r) == (a, b):
+            arm = "false"
+        elif d[1] == "Lt" and (l, r) == (b, a):
+            arm = "false"
+        elif d[1] == "Le" and (l, r) == (a, b):
+            arm = "true"
+        elif d[1] == "Ge" and (l, r) == (b, a):
+            arm = "true"
+        elif d[1] == "Ge" and (l, r) == (a, b):
+            arm = "false"  # !(small >= big)  =>  small < big
+        elif d[1] == "Le" and (l, r) == (b, a):
+            arm = "false"  # !(big <= small)  =>  small < big
+        elif d[1] == "Lt" and (l, r) == (a, b):
+            arm = "true"
+        elif d[1] == "Gt" and (l, r) == (b, a):
+            arm = "true"
+        if arm is None:
+            continue
+        tgt = si["arms"][arm]
+        if [p for p in f.pred[tgt] if p in f.live_blocks] == [bi] and f.dominates(tgt, site_bb):
+            return bi
     return None
 
 
@@ -169,6 +230,34 @@ def only_returns(g, variants):
         if t[0] == "call" and t[3][0] == 0:
             return False
     return good
+
+
+def _owner(fid):
+    """module or impl type a function belongs to: the id without its last path segment (closure suffixes kept apart)"""
+    base = fid.split("::{closure")[0]
+    depth = 0
+    for i in range(len(base) - 1, 0, -1):
+        ch = base[i]
+        if ch == ">":
+            depth += 1
+        elif ch == "<":
+            depth -= 1
+        elif ch == ":" and base[i - 1] == ":" and depth == 0:
+            return base[:i - 1] + fid[len(base):]
+    return fid
+
+
+def _relocated_row(table, s, live_keys):
+    fid, kind, desc = s["key"].split(" | ", 2)
+    want = (_owner(fid), kind, desc)
+    cands = []
+    for k in table:
+        if k in live_keys:
+            continue
+        parts = k.split(" | ", 2)
+        if len(parts) == 3 and (_owner(parts[0]), parts[1], parts[2]) == want:
+            cands.append(k)
+    return cands[0] if len(cands) == 1 else None
 
 
 def load_table():
@@ -196,6 +285,7 @@ def run(ctx):
     ctx.floor("R1", "panic sites", len(sites), 120)
     table = load_table()
     used = set()
+    live_keys = {x["key"] for x in sites}
     counts = {"auto": 0, "SAFE": 0, "STARTUP-ONLY": 0, "FINDING": 0, "unreviewed": 0}
     for s in sites:
         f = s["fn"]
@@ -206,6 +296,14 @@ def run(ctx):
             ctx.ob("R1", s["key"], True, "auto-discharged: " + auto, where=where, nontrivial=False)
             continue
         row = table.get(s["key"])
+        if row is None:
+            # the function may have been renamed / its body moved into a sibling (compute -> compute_in): adopt the row of a site with the
+            # same owner (module or impl type), kind, operand provenance and ordinal whose own site no longer exists
+            alt = _relocated_row(table, s, live_keys)
+            if alt is not None:
+                row = table[alt]
+                used.add(alt)
+                ctx.note("panic-site row adopted after a rename: %s  <-  %s" % (s["key"], alt))
         if row is None:
             counts["unreviewed"] += 1
             ctx.ob("R1", s["key"], False, "panic site not in the reviewed table: a new way to crash on user-controlled input that nobody has argued about (%s in %s)" % (s["kind"], "load+scan" if f.id in reach_load and f.id in reach_scan else ("load" if f.id in reach_load else "scan")), where=where)
@@ -352,8 +450,8 @@ def _on_nonempty_arm(prog, f, site_blocks):
 def g_multi_nonempty(ctx):
     prog = ctx.prog
     res = []
-    for pat in (r"^ast_grep_core::meta_var::get_var_bytes_impl$", r"^ast_grep_core::replacer::template::maybe_get_var$", r"^ast_grep_config::transform::rewrite::Rewrite::<ast_grep_core::meta_var::MetaVariable>::compute$"):
-        f = prog.one_fn(pat)
+    for pat in (r"^ast_grep_core::meta_var::get_var_bytes_impl$", r"^ast_grep_core::replacer::template::maybe_get_var$", None):
+        f = prog.one_fn(pat) if pat else _rewrite_compute(prog)
         sites = [c.bb for c in f.calls if c.name == "index" and "Vec" in c.best and any(o.kind == "call" and o.ref.name in ("get_multiple_matches", "get_nodes_from_env") for o in deep_roots(prog, f, c.args[0]))]
         res.append(bool(sites) and _on_nonempty_arm(prog, f, sites))
     return all(res), "index sites lie on the non-empty arm of nodes.is_empty(): %s" % res
@@ -431,6 +529,14 @@ def g_peekable(ctx):
     return not bad, "%d iterator obligations discharged (helper contracts %s)" % (len(obs), {k.rsplit("::", 1)[-1]: sorted(v["pre"]) for k, v in summ.items()}) if not bad else "iterator may be empty at: %s" % "; ".join(bad)
 
 
+def _rewrite_compute(prog):
+    """the method of Rewrite<MetaVariable> that does the work (calls find_and_make_edits), whatever its name"""
+    fs = [f for f in prog.find_fns(r"^ast_grep_config::transform::rewrite::Rewrite::<ast_grep_core::meta_var::MetaVariable>::") if not f.is_closure and any(c.name == "find_and_make_edits" for c in f.calls)]
+    if len(fs) != 1:
+        raise AnchorError("Rewrite's computing method not identified (%d candidates)" % len(fs))
+    return fs[0]
+
+
 @guard("rewrite_edits_filtered")
 def g_rewrite_filtered(ctx):
     """every `edit.position - start/offset` in rewrite.rs is protected: make_edit uses checked_sub; Rewrite::compute only
@@ -438,7 +544,7 @@ def g_rewrite_filtered(ctx):
     prog = ctx.prog
     me = prog.one_fn(r"^ast_grep_config::transform::rewrite::make_edit$")
     cs = [c for c in me.calls if c.name == "checked_sub"]
-    comp = prog.one_fn(r"^ast_grep_config::transform::rewrite::Rewrite::<ast_grep_core::meta_var::MetaVariable>::compute$")
+    comp = _rewrite_compute(prog)
     filt = [c for c in comp.calls if c.name == "filter" and "Iterator" in (c.callee.get("trait") or c.best)]
     weak = [c for c in comp.calls if c.name in ("skip_while", "skip", "take_while")]
     nexts = [c for c in comp.calls if c.name == "next" and "Filter" in c.best]
@@ -579,6 +685,90 @@ def r3(ctx, reach):
             ok, msg = False, (msg + "; " if msg else "") + "component grew to %d functions (reviewed at <= %d): new members need review: %s" % (len(comp), row["max_size"], ", ".join(named[:8]))
         ctx.ob("R3", "scc %s" % key, ok, "%d functions; measure: %s%s" % (len(comp), row["measure"], (" [guard %s: %s]" % (row["guard"], msg)) if "guard" in row else ""), where=prog.fns[key].loc(), nontrivial="guard" in row)
     ctx.floor("R3", "recursive SCCs", n, 3)
+    rewriter_recursion(ctx)
+
+
+APPLYING_TY = re.compile(r"^core::option::Option<&ast_grep_config::transform::Applying<'_>>$")
+
+
+def rewriter_recursion(ctx):
+    """The rewriter recursion (do_match -> transform -> rewrite -> replace_one -> do_match) has no syntactic measure: the source of a
+    `rewrite` can be the matched node itself or an ancestor (finding F27).  Its measure is dynamic: the chain of applications
+    (`Applying`) is threaded through the cycle, and replace_one applies a rewriter only inside the node of the enclosing application
+    and never to a (rewriter, node) pair already on the chain.  Checked: the chain reaches every hop of the cycle unbroken, and the
+    guard dominates the re-entry."""
+    prog = ctx.prog
+    from ..query import bool_arms
+    ro = ctx.anchor("R3", r"^ast_grep_config::transform::rewrite::replace_one$")
+    if not ro:
+        return
+    def aparams(f):
+        return [i for i in range(1, f.nargs + 1) if APPLYING_TY.match(f.locals[i])]
+    carriers = {f.id: f for f in prog.fns.values() if not f.is_closure and aparams(f)}
+    ctx.floor("R3", "functions carrying the application chain", len(carriers), 7)
+    news = {f.id for f in prog.find_fns(r"^ast_grep_config::transform::Applying::<'a>::new$")}
+    hops = 0
+    seen_hops = {}
+    for f in sorted(carriers.values(), key=lambda f: f.id):
+        if f.id in news:
+            continue
+        P = aparams(f)
+        for g in prog.family(f):
+            for c in g.calls:
+                if c.bb not in g.live_blocks:
+                    continue
+                for t in prog.call_targets(c):
+                    callee = carriers.get(t)
+                    if callee is None or t in news:
+                        continue
+                    hops += 1
+                    bad = []
+                    for j in aparams(callee):
+                        a = c.args[j - 1]
+                        ok = False
+                        if a[0] != "k":
+                            for ff, o in ultimate_roots(prog, g, a, {"as_ref", "as_deref", "copied", "clone"}):
+                                if ff is f and o.kind == "param" and o.ref in P:
+                                    ok = True
+                                elif o.kind == "agg" and o.ref[2][1].get("variant") == "Some" and o.ref[2][2]:
+                                    # Some(&Applying::new(.., .., outer))
+                                    for f3, o3 in ultimate_roots(prog, ff, o.ref[2][2][0], set()):
+                                        if o3.kind == "call" and set(prog.call_targets(o3.ref)) & news and len(o3.ref.args) >= 3:
+                                            if any(f4 is f and o4.kind == "param" and o4.ref in P for f4, o4 in ultimate_roots(prog, f3, o3.ref.args[2], set())):
+                                                ok = True
+                        if not ok:
+                            bad.append(j)
+                    seen_hops[(f.name, callee.name)] = seen_hops.get((f.name, callee.name), 0) + 1
+                    k = seen_hops[(f.name, callee.name)]
+                    ctx.ob("R3", "application chain %s -> %s%s" % (f.name, callee.name, "" if k == 1 else "#%d" % k), not bad,
+                           "the caller's chain (or a new link whose outer is the caller's chain) is handed on" if not bad else
+                           "%s calls %s without handing on its chain of rewriter applications (argument %s is not derived from its own `applying`): the recursion "
+                           "guard in replace_one no longer sees the enclosing applications, recursive rewriters can re-enter the same node without end" % (f.id, callee.id, bad),
+                           where=g.loc(c.line))
+    ctx.floor("R3", "hops of the application chain", hops, 6)
+    # the guard dominates the re-entry
+    dm = [c for c in ro.calls if c.name == "do_match" and c.bb in ro.live_blocks]
+    guards = []
+    for c in ro.calls:
+        if c.name == "is_some_and" and c.args and any(o.kind == "param" and o.ref in aparams(ro) for o in ro.trace_operand(c.args[0])):
+            cl = [g for g in prog.closures_of(ro) if any(x.name == "allows" for x in g.calls)]
+            if cl:
+                guards.append(c)
+    ok = bool(dm) and bool(guards)
+    detail = "no guard found"
+    if ok:
+        ba = bool_arms(ro, guards[0])
+        ok = ba is not None and all(ro.dominates(ba["false"], c.bb) and c.bb not in ro.reachable_from(ba["true"], stop=[ba["false"]]) for c in dm)
+        detail = "do_match is reached only when no enclosing application forbids (rewriter, node): `applying.is_some_and(|a| !a.allows(..))` true arm skips"
+    ctx.ob("R3", "rewriter re-entry guarded in replace_one", ok, detail if ok else "the re-entry into do_match is not dominated by the Applying::allows guard: " + detail, where=ro.loc())
+    al = ctx.anchor("R3", r"^ast_grep_config::transform::Applying::<'a>::allows$")
+    ia = ctx.anchor("R3", r"^ast_grep_config::transform::Applying::<'a>::is_applying$")
+    if al and ia:
+        names = {c.name for g in prog.family(al) for c in g.calls}
+        ctx.ob("R3", "Applying::allows = inside the applied node and not already applied", {"ancestors", "is_applying", "node_id"} <= names,
+               "allows() consults node_id/ancestors (inside-ness) and is_applying (pair on the chain)", where=al.loc())
+        rec = any(set(prog.call_targets(c)) == {ia.id} for g in prog.family(ia) for c in g.calls)
+        ctx.ob("R3", "Applying::is_applying walks the whole chain", rec, "is_applying recurses into `outer`", where=ia.loc())
 
 
 @guard("same_node_cycle_visitors")
